@@ -158,6 +158,11 @@ func (fr *frame) get(key ssa.Value) value {
 		return constValue(key)
 	case *ssa.Global:
 		if r, ok := fr.i.globals[key]; ok {
+			if fr.i.ex != nil && key.Pkg != nil && key.Pkg.Pkg != nil && !fr.i.initAllow[key.Pkg.Pkg.Path()] {
+				// a global of a package whose initialiser was skipped: its value is the
+				// zero value, which may differ from the real program's
+				fr.i.ex.UninitGlobals[key.Pkg.Pkg.Path()+"."+key.Name()]++
+			}
 			return r
 		}
 	}
